@@ -1,6 +1,47 @@
 (** C01.Properties — the theorems that decide C01, and nothing else. *)
 From Base Require Import Prelude Sx Json JsonText.
+From Coq Require Import Permutation.
 From C01 Require Import Spec Model Proofs.
+
+(** The compact serializer applied to the stored form (UTF-8 strings, BTreeMap objects) of any
+    representable value emits exactly the specification's canonical encoding: members in
+    code-point order at every depth, minimal escapes, shortest decimal integers. *)
+Theorem C01_print_is_spec :
+  forall u, uwfb u = true -> print (to_json u) = canonical_spec u.
+Proof. exact print_is_spec. Qed.
+Eval compute in "PA:C01_print_is_spec"%string.
+Print Assumptions C01_print_is_spec.
+
+(** Byte order of UTF-8 encodings is code-point order (what makes a BTreeMap<String,_>
+    iterate in the order the specification prescribes), for all scalar strings. *)
+Theorem C01_utf8_order_is_codepoint_order :
+  forall a b, cps_ok a -> cps_ok b -> str_ltb (enc_str a) (enc_str b) = cp_ltb a b.
+Proof. exact enc_str_ltb. Qed.
+Eval compute in "PA:C01_utf8_order_is_codepoint_order"%string.
+Print Assumptions C01_utf8_order_is_codepoint_order.
+
+(** The canonical value of an object text depends only on the final binding of each key:
+    not on member order, not on shadowed duplicates. *)
+Theorem C01_object_depends_on_bindings_only :
+  forall m1 m2, (forall k, last_assoc k m1 = last_assoc k m2) ->
+  to_canonical (RObj m1) = to_canonical (RObj m2).
+Proof. exact object_depends_on_bindings_only. Qed.
+Eval compute in "PA:C01_object_depends_on_bindings_only"%string.
+Print Assumptions C01_object_depends_on_bindings_only.
+
+Theorem C01_key_order_irrelevant :
+  forall m1 m2, Permutation m1 m2 -> NoDup (List.map fst m1) ->
+  to_canonical (RObj m1) = to_canonical (RObj m2).
+Proof. exact key_order_irrelevant. Qed.
+Eval compute in "PA:C01_key_order_irrelevant"%string.
+Print Assumptions C01_key_order_irrelevant.
+
+Theorem C01_duplicate_last_wins :
+  forall m k x1 x2,
+  to_canonical (RObj (m ++ [(k, x1); (k, x2)])) = to_canonical (RObj (m ++ [(k, x2)])).
+Proof. exact duplicate_last_wins. Qed.
+Eval compute in "PA:C01_duplicate_last_wins"%string.
+Print Assumptions C01_duplicate_last_wins.
 
 (** A number literal is accepted exactly when it has no fraction and no exponent, is not
     negative zero and lies within [-(2^53-1), 2^53-1]; the accepted value is the literal's
